@@ -85,6 +85,34 @@ def build_data(spec):
         f_in, Z_in = f.copy(), Z.copy()
         mask = {int(i): True for i in np.where(masked)[0]}
     kw = {}
+    hist = spec.get("history")
+    if hist:
+        # The same final data set reached through a history on one object (restart-free path):
+        # a different initial mask, reads of every view, a cleared mask, then the final mask.
+        rs = np.random.RandomState(int(hist))
+        other = {int(i): True for i in rs.choice(n, size=max(1, n // 3), replace=False)}
+        ds = DataSet(f_in, Z_in, label=spec.get("label", "sim"), mask=other)
+        for m in (None, False, True):
+            ds.get_frequencies(masked=m)
+            ds.get_impedances(masked=m)
+        ds.get_nyquist_data()
+        ds.get_bode_data()
+        k = rs.randint(0, 3)
+        if k == 0:
+            ds.set_mask({})
+            ds.get_frequencies()
+            ds.get_impedances()
+            ds.set_mask(dict(mask))
+        elif k == 1:
+            full = {i: False for i in range(n)}
+            full.update(mask)
+            ds.set_mask(full)
+        else:
+            ds.set_mask({})
+            ds.get_num_points()
+            if mask:
+                ds.set_mask(dict(mask))
+        return ds
     if mask or spec.get("explicit_mask"):
         kw["mask"] = mask
     return DataSet(f_in, Z_in, label=spec.get("label", "sim"), **kw)
